@@ -571,7 +571,8 @@ impl World {
             let Some(arr) = v.as_array() else { continue };
             let ids: Option<Vec<String>> = arr
                 .iter()
-                .map(|e| e.get("_id").and_then(|i| i.as_str()).map(|s| s.to_string()))
+                // (plain strings are their own identity, written "!<string>" to keep them apart from identifiers)
+                .map(|e| e.get("_id").and_then(|i| i.as_str()).map(|s| s.to_string()).or_else(|| e.as_str().map(|s| format!("!{}", s))))
                 .collect();
             let Some(ids) = ids else { continue };
             let uuid = format!("^\u{221A}@{}", k);
